@@ -170,6 +170,27 @@ def run(module, cfg, env=None, workers=16, timeout=1200, tags=("V", "NB", "MISSI
     return r
 
 
+def normalise(cases_path, timeout=900):
+    """phase 0: run MCNorm on a cases file; returns the path of the serialised normal forms"""
+    norm_path = cases_path + ".norm"
+    run("MCNorm.tla", "MCNorm.cfg", env={"VERIF_CASES": cases_path, "VERIF_NORM": norm_path}, workers=1,
+        timeout=timeout, tags=())
+    return norm_path
+
+
+def run_with_norm(module, cfg, cases_path, env=None, **kw):
+    norm = normalise(cases_path)
+    e = {"VERIF_CASES": cases_path, "VERIF_NORM": norm}
+    e.update(env or {})
+    try:
+        return run(module, cfg, env=e, **kw)
+    finally:
+        try:
+            os.unlink(norm)
+        except OSError:
+            pass
+
+
 def write_cases(cases, name="cases"):
     os.makedirs(WORK, exist_ok=True)
     fd, path = tempfile.mkstemp(prefix=name + "_", suffix=".json", dir=WORK)
